@@ -37,7 +37,11 @@ MANIFEST = dict(
           "back through recording constructors mirroring the real registrations (same config type and default func, taken from the registry), "
           "and a sample also with the real constructors; TLC evaluates the property invariants on every observed result and compares outcome "
           "and each leaf with the model. Right level: the statement quantifies over all config paths and field positions; tests decode toy structs."),
-    note=("One mutation at a time on three base configurations; values are one representative per leaf (one non-default value, one wrong-typed, "
+    note=("Also: value classes that follow from the kind of a leaf (fractional / out-of-range number into an integer option, negative into an "
+          "unsigned one, integral float accepted), every value class also delivered through a placeholder, the moment an error is reported "
+          "(load | first call of the factory of a lazily decoded section: rps, grpc guns) pinned, and the input channel of the CLI reader x file "
+          "syntax (file .yaml/.yml/no extension/.json/.toml, stdin, ./load.yaml, ./load.json, ./config/load.yaml with decoys in the search "
+          "directories) as a dimension of the cli path. One mutation at a time on three base configurations; values are one representative per leaf (one non-default value, one wrong-typed, "
           "the listed out-of-range values); effective defaults applied downstream of decoding (max-idle-conns-per-host, fallback-delay, "
           "client-number, grpc timeouts) are pinned as the decoded zero value; scenario-file contents (HCL/YAML) belong to C16. Trusted: the "
           "recording driver incl. its reflection over the registry, the schema transcription, TLC."),
@@ -450,7 +454,9 @@ def run(tier, v):
         "distinct_nontrivial": len({json.dumps(c["c"], sort_keys=True) for c in cases if c["c"]["kind"] != "none"}),
         "rule": "one case per (variant, base, mutation) as enumerated by CasesOf in ConfigDecode.tla, each decoded as map[string]any and "
                 "map[any]any with the recording registry; every %d-th also through the CLI reader and (non-placeholder, V1/V2) with the real "
-                "constructors; distinct_nontrivial = distinct abstract cases that carry a mutation (kind # none)" % stride,
+                "constructors; channel cases (none/absent/nullval/dropcomp/nullcomp) through %s other input channel(s) of the CLI reader; quick "
+                "tier: of the value classes delivered through a placeholder all kind classes and every 3rd documented class; "
+                "distinct_nontrivial = distinct abstract cases that carry a mutation (kind # none)" % (stride, "every" if thorough else "1 (kind none: every)"),
         "cases_by_kind": kinds, "outcomes": outcomes, "cli_runs_by_input_channel": channels,
         "pairs_of_mutations": {"pairs": conc["pairs"]["pairs"], "decodes": conc["pairs"]["decodes"]},
         "overlapping_decodes": {"goroutines": conc["g"], "passes": conc["rounds"],
